@@ -1004,3 +1004,211 @@ def getref_trial(a_pos, ops):
             if t.running:
                 t.stopService()
         E.turn()
+
+
+# ------------------------------------------------------------------------------------------ crossed connections
+# Four Tubs.  Tub A has several outbound lookups pending (each on its own held link) while some of the dialled Tubs connect
+# to A themselves; the harness decides which link makes progress when, so every completion order can be produced.  Every
+# call of A's getBrokerForTubRef / brokerAttached / connectionFailed / brokerDetached is logged as an event of the Coq
+# model (lib/Identity.v: tstate/tstep) together with the state A is in afterwards.
+def arrangement4(a_pos):
+    ps = pems_sorted(4)
+    if a_pos == "hi":
+        a, rest = ps[3], ps[:3]
+    else:
+        a, rest = ps[0], ps[1:]
+    return dict(A=a, B=rest[0], C=rest[1], D=rest[2])
+
+
+def crossed_trial(a_pos, ops):
+    """ops: ('out', X) A looks X up (getReference) | ('in', X) X looks A up | ('run', i) everything on the i-th link created |
+    ('step', i, n) n deliveries on link i | ('runall',).  Links make no progress unless told to."""
+    reset()
+    net = Net()
+    arr = arrangement4(a_pos)
+    ids = {k: v[0] for k, v in arr.items()}
+    tubs = {k: make_tub(net, k.lower(), arr[k][1]) for k in "ABCD"}
+    A = tubs["A"]
+    letter = {ids[k]: k for k in ids}
+    problems, events, snaps, lookups, asked = [], [], [], [], []
+
+    def cert_letter(cert):
+        return None if cert is None else letter.get(independent_tubid(cert))
+
+    def snapshot():
+        tab = []
+        for tr, b in A.brokers.items():
+            if isinstance(b.transport, E.End):
+                tab.append((tr.getTubID(), independent_tubid(b.transport.peer_cert), False))
+            else:
+                tab.append((tr.getTubID(), None, True))
+        snaps.append((sorted(tab, key=repr), [tr.getTubID() for tr in A.tubConnectors.keys()]))
+
+    def poll():
+        for name, t in tubs.items():
+            for tubref, b in list(t.brokers.items()):
+                tr = b.transport
+                if isinstance(tr, E.End):
+                    cid = independent_tubid(tr.peer_cert)
+                    if cid is None or cid != tubref.getTubID():
+                        problems.append(("table-entry-unproven", "Tub %s keeps under %s (Tub %s) a connection whose peer authenticated as Tub %s"
+                                         % (name, tubref.getTubID(), letter.get(tubref.getTubID()), letter.get(cid))))
+                    if b.remote_tubref is None or b.remote_tubref.getTubID() != tubref.getTubID():
+                        problems.append(("broker-tubref-differs-from-key", "Tub %s: entry %s holds a Broker for %s"
+                                         % (name, tubref.getTubID(), b.remote_tubref and b.remote_tubref.getTubID())))
+                elif tubref.getTubID() != t.tubID:
+                    problems.append(("loopback-under-foreign-id", "Tub %s keeps a loopback under %s" % (name, tubref.getTubID())))
+        for (furl, res) in asked:
+            for r_ in res:
+                for pr in reference_problems(A, furl, r_):
+                    if pr not in problems:
+                        problems.append(pr)
+
+    o_get, o_att, o_det, o_fail = A.getBrokerForTubRef, A.brokerAttached, A.brokerDetached, A.connectionFailed
+    in_lookup = [0]
+
+    def getBrokerForTubRef(tubref):
+        in_lookup[0] += 1
+        try:
+            d = o_get(tubref)
+        finally:
+            in_lookup[0] -= 1
+        rec = []
+        lookups.append((tubref.getTubID(), rec))
+        d.addBoth(lambda r: (rec.append(r), r)[1])
+        events.append(("lookup", tubref.getTubID()))
+        snapshot()
+        return d
+
+    def brokerAttached(tubref, broker, isClient):
+        tr = broker.transport
+        try:
+            return o_att(tubref, broker, isClient)
+        finally:
+            if isinstance(tr, E.End):
+                l = tr.link
+                peer = l.server_tub if tr.side == 0 else l.client_tub
+                events.append(("neg", "Client" if isClient else "Server", getattr(l, "dialled", None) if isClient else None,
+                               cert_letter(tr.peer_cert), peer.tubID, tubref.getTubID()))
+                cid = independent_tubid(tr.peer_cert)
+                if cid is None or cid != tubref.getTubID():
+                    problems.append(("attached-unproven", "Tub A registered under %s (Tub %s) a connection whose peer authenticated as Tub %s"
+                                     % (tubref.getTubID(), letter.get(tubref.getTubID()), letter.get(cid))))
+                snapshot()
+
+    def brokerDetached(broker, why):
+        keys = [tr.getTubID() for tr, b in A.brokers.items() if b is broker]
+        r = o_det(broker, why)
+        for k in keys:
+            events.append(("detach", k))
+            snapshot()
+        return r
+
+    def connectionFailed(tubref, why):
+        r = o_fail(tubref, why)
+        events.append(("failed", tubref.getTubID()))
+        snapshot()
+        return r
+    A.getBrokerForTubRef, A.brokerAttached, A.brokerDetached, A.connectionFailed = getBrokerForTubRef, brokerAttached, brokerDetached, connectionFailed
+
+    def deliver_one(l):
+        """one delivery on link l (data first, then closes), with in-flight bytes delivered after a hang-up; False if nothing to do"""
+        for side in (0, 1):
+            if l.q[side]:
+                d = l.q[side].pop(0)
+                dst = l.ends[1 - side]
+                if d is None:
+                    if not dst.lost:
+                        dst.lost = dst.closed = True
+                        dst.protocol.connectionLost(_failure.Failure(_ConnectionDone()))
+                elif not dst.lost:
+                    dst.protocol.dataReceived(d)
+                E.turn()
+                poll()
+                return True
+        if l.pending_local_close:
+            e = l.pending_local_close.pop(0)
+            if e.protocol and not e.lost:
+                e.lost = True
+                e.protocol.connectionLost(_failure.Failure(_ConnectionDone()))
+            E.turn()
+            poll()
+            return True
+        return False
+
+    def run_link(l, limit=100000):
+        n = 0
+        while n < limit and deliver_one(l):
+            n += 1
+    try:
+        for k, t in tubs.items():
+            o = T()
+            o.who = [k, "svc"]
+            t.registerReference(o, name="svc")
+        results = []
+        for op in ops:
+            if op[0] in ("out", "in"):
+                x = op[1]
+                n0 = len(net.links)
+                res = []
+                if op[0] == "out":
+                    furl = "pb://%s@fake:%s:1/svc" % (ids[x], x.lower())
+                    asked.append((furl, res))
+                    A.getReference(furl).addBoth(res.append)
+                else:
+                    furl = "pb://%s@fake:a:1/svc" % ids["A"]
+                    tubs[x].getReference(furl).addBoth(res.append)
+                results.append((op, res))
+                E.turn()
+                for l in net.links[n0:]:
+                    l.dialled = ids[x] if op[0] == "out" else ids["A"]
+                poll()
+            elif op[0] == "run":
+                if op[1] < len(net.links):
+                    run_link(net.links[op[1]])
+            elif op[0] == "step":
+                if op[1] < len(net.links):
+                    run_link(net.links[op[1]], op[2])
+            elif op[0] == "runall":
+                progress = True
+                while progress:
+                    progress = False
+                    for l in list(net.links):
+                        if deliver_one(l):
+                            progress = True
+        # let everything finish (timeouts included)
+        for i in range(4):
+            progress = True
+            while progress:
+                progress = False
+                for l in list(net.links):
+                    if deliver_one(l):
+                        progress = True
+            if all(r for (_, r) in results):
+                break
+            E.clock.advance(130)
+            E.turn()
+            poll()
+        for (op, res) in results:
+            if len(res) > 1:
+                problems.append(("getReference-fired-%d-times" % len(res), "%r" % (op,)))
+        answers = []
+        for (x, rec) in lookups:
+            if not rec:
+                answers.append((x, "pending"))
+            elif hasattr(rec[0], "transport"):
+                tr = rec[0].transport
+                answers.append((x, independent_tubid(tr.peer_cert) if isinstance(tr, E.End) else "loopback"))
+            else:
+                answers.append((x, "failed"))
+        uniq = []
+        for p_ in problems:
+            if p_ not in uniq:
+                uniq.append(p_)
+        outcome = ["ok" if (r and hasattr(r[0], "callRemote")) else ("none" if not r else "failed") for (_, r) in results]
+        return dict(a_pos=a_pos, ops=[list(o) for o in ops], ids=ids, events=events, snaps=snaps, answers=answers,
+                    problems=uniq, outcome=outcome)
+    finally:
+        for t in tubs.values():
+            t.stopService()
+        E.turn()
